@@ -231,3 +231,86 @@ def fault(mode: int, k: int, i: int, w: int, also: bool, given: bool) -> bool:
         ok = ok and _attr(srv, d, kk) == before[d]
     tock("fault")
     return ok
+
+
+# ------------------------------------------------------------------ (E) observable effect, whichever way the option was given
+EFFECT_SRC = ("module em\n#ifdef A\n  integer, save, pointer, dimension(3) :: ea\n#endif\n#if N == 3\n  real, target, allocatable, save :: en(:)\n#endif\n"
+              "  integer, dimension(2), save, pointer :: plain\n  real :: sq = SQRT(2.0)\nend module em\n")
+EFFECTS = [  # (option, value as JSON-able, command-line words)
+    ("sort_keywords", True, ["--sort_keywords"]),
+    ("pp_defs", {"A": ""}, ["--pp_defs", '{"A": ""}']),
+    ("pp_defs", ["A"], ["--pp_defs", '["A"]']),
+    ("pp_defs", {"A": "", "N": 3}, ["--pp_defs", '{"A": "", "N": 3}']),
+    ("pp_defs", {"N": "3"}, ["--pp_defs", '{"N": "3"}']),
+    ("hover_language", "f90", ["--hover_language", "f90"]),
+    ("max_line_length", 20, ["--max_line_length", "20"]),
+]
+
+
+def _effect_dump(srv):
+    """start-up as serve_initialize does it (config already loaded by the caller), then index EFFECT_SRC twice (a
+    re-parse after start-up is what an edit triggers) and collect what a client would see"""
+    from fortls.parsers.internal.parser import FortranFile
+
+    srv._load_intrinsics()
+    out = {}
+    for rnd in (1, 2):
+        f = FortranFile("/w/em.F90")
+        f.set_contents(EFFECT_SRC.split("\n"))
+        f.preproc = True
+        f.ast = f.parse(pp_defs=srv.pp_defs, include_dirs=srv.include_dirs)
+        srv.workspace = {"/w/em.F90": f}
+        srv.obj_tree = {k: [o, "/w/em.F90"] for k, o in f.ast.global_dict.items()}
+        out[("vars", rnd)] = sorted(v.name for v in f.ast.variable_list)
+        r = srv.serve_hover({"params": {"textDocument": {"uri": "file:///w/em.F90"}, "position": {"line": len(f.contents_split) - 3, "character": 15}}})
+        out[("hover intrinsic", rnd)] = None if r is None else r["contents"]["value"][:40]
+        for v in f.ast.variable_list:
+            r = srv.serve_hover({"params": {"textDocument": {"uri": "file:///w/em.F90"}, "position": {"line": v.sline - 1, "character": f.contents_split[v.sline - 1].index(v.name) + 1}}})
+            out[("hover", v.name, rnd)] = None if r is None else r["contents"]["value"]
+        out[("diag", rnd)] = sorted((d["message"], d["range"]["start"]["line"]) for d in f.check_file(srv.obj_tree, max_line_length=srv.max_line_length,
+                                                                                                     max_comment_line_length=srv.max_comment_line_length))
+    return out
+
+
+def effects(k: int) -> bool:
+    """the observable effect of an option (hover text incl. attribute order and language tag, which declarations of
+    a preprocessed file are indexed, line-length diagnostics; at start-up and after a re-parse) is the same whether
+    it was given on the command line or in the configuration file, and differs from the default where it should
+    pre: 0 <= k < len(EFFECTS)
+    post: _
+    """
+    tick("effects")
+    k = conc(k, 0, len(EFFECTS) - 1)
+    opt, val, words = EFFECTS[k]
+    from crosshair.tracers import NoTracing
+
+    with NoTracing():
+        ok = _effects_concrete(opt, val, words)
+    tock("effects")
+    return ok
+
+
+def _effects_concrete(opt, val, words) -> bool:
+    ok = True
+    s_cli = _mkserver(vars(PARSER.parse_args(words)))  # no configuration file at all: nothing is loaded
+    d_cli = _effect_dump(s_cli)
+    s_file = _mkserver(dict(DEFAULTS))
+    _J5.mode, _J5.value = 0, {opt: val}
+    s_file._load_config_file()
+    d_file = _effect_dump(s_file)
+    s_def = _mkserver(dict(DEFAULTS))
+    _J5.mode, _J5.value = 0, {}
+    s_def._load_config_file()
+    d_def = _effect_dump(s_def)
+    if d_cli != d_file:
+        diff = {kk: (d_cli.get(kk), d_file.get(kk)) for kk in d_cli if d_cli.get(kk) != d_file.get(kk)}
+        FAILS.append(f"{opt}={val!r}: command line vs configuration file differ in {diff}")
+        ok = False
+    if d_cli == d_def:
+        FAILS.append(f"{opt}={val!r}: no observable effect at all (the probe document does not exercise it)")
+        ok = False
+    L.set_keyword_ordering(False)
+    return ok
+
+
+FAILS = []
